@@ -136,6 +136,18 @@ template <class T> static bool exec_buf_t(Ctx &c, const Op &op) {
         }
         return true;
     }
+    case B_SWAP: {
+        // exchanging two values the way generic code does it: an unqualified swap (found by ADL if the library provides one, std::swap's
+        // move construction + two move assignments otherwise), std::iter_swap, or std::swap itself
+        BufObj<T> *a = pick(v, op.a), *b = pick(v, op.b);
+        if (!a || !b || a == b) { c.skipped = true; return true; }
+        char e[48]; std::snprintf(e, sizeof e, "a=%c,b=%c,form=%u", cl(a), cl(b), op.c % 3); note_sig<T>(c, op, e);
+        if (a->moved_from || b->moved_from) c.touched_moved_from = true;
+        as_target(a); as_target(b);
+        ExcKind ex = run_sut(c, op, [&] { using std::swap; switch (op.c % 3) { case 0: swap(*a->p(), *b->p()); break; case 1: std::iter_swap(a->p(), b->p()); break; default: std::swap(*a->p(), *b->p()); break; } });
+        if (settle(c, op, ex, 0)) { crossing<T>(c, a->model.size(), b->model.size()); std::swap(a->model, b->model); std::swap(a->moved_from, b->moved_from); }
+        return true;
+    }
     case B_ALLOCATE: case B_ALLOCATE_FILL: {
         BufObj<T> *dst = pick(v, op.a);
         if (!dst) { c.skipped = true; return true; }
